@@ -20,7 +20,8 @@ RULE = ('random QP-harness problems (1-4 design variables, 1-4 constraint elemen
         'indices/alias) with bound forms {scalar, array with holes, one/two sided, equality scalar/array}, '
         'linear/nonlinear flags, units, scaler/adder/ref/ref0 (scalar and array, positive), evaluated at points '
         'inside / near / far outside the bounds, for driver_scaling in {False, True}; observables '
-        'get_constraint_values(viol=True), _compute_con_viol, find_feasible; distinct = distinct (structure, '
+        'get_constraint_values(viol=True), _compute_con_viol, find_feasible (plus a failpoint stratum: the k-th model '
+        'evaluation inside find_feasible raises, k in 1..3); distinct = distinct (structure, '
         'driver_scaling, observable); non-trivial = at least one element violated at the evaluation point')
 LEVEL_TEXT = 'sampled exploration; every reported violation element compared with the closed form'
 ASSUMPTIONS = [
@@ -35,7 +36,7 @@ MIN_JUDGED = {'quick': 400, 'thorough': 5000}
 REQUIRED_COUNTERS = ['obs:get_constraint_values-viol', 'obs:violated-elements', 'obs:satisfied-elements',
                      'obs:equality-elements', 'obs:driver_scaling-true', 'obs:driver_scaling-false',
                      'obs:scalar-bounds', 'obs:array-bounds', 'obs:_compute_con_viol',
-                     'obs:find_feasible-success']
+                     'obs:find_feasible-success', 'obs:find_feasible-fault-injected']
 SHARD_TIMEOUT = {'quick': 600, 'thorough': 3000}
 
 
@@ -208,17 +209,39 @@ def judge(case, acc):
                 pass
 
 
+class _Injected(RuntimeError):
+    pass
+
+
 def _judge_ff(case, acc, p, drv, ref, st):
     from omv.gen import qpmodel
     spec = case['spec']
     ds = bool(case['ds'])
-    fp = fingerprint({'st': st, 'ds': ds, 'obs': 'ff'})
+    fp = fingerprint({'st': st, 'ds': ds, 'obs': 'ff', 'fault': bool(case.get('fault'))})
     loss_tol = 1e-8
     import io
     import contextlib
+    fault = case.get('fault')
+    if fault:
+        # failpoint: the fault-th model evaluation requested by find_feasible raises.  The residual callback
+        # records the exception and returns zeros; find_feasible must then not claim a feasible point.
+        orig = drv._run_solve_nonlinear
+        calls = [0]
+
+        def failing(*a, **kw):
+            calls[0] += 1
+            if calls[0] == fault:
+                acc.count('obs:find_feasible-fault-injected')
+                raise _Injected('omv injected model failure at evaluation %d' % fault)
+            return orig(*a, **kw)
+        drv._run_solve_nonlinear = failing
     try:
         with contextlib.redirect_stdout(io.StringIO()):
             p.find_feasible(driver_scaling=ds, iprint=0, loss_tol=loss_tol)
+    except _Injected:
+        acc.count('obs:find_feasible-fault-propagated')
+        acc.ok(fp, sample=None)
+        return
     except Exception as e:   # noqa
         forms = sorted(set(_form(c['d']) for c in ref.cons))
         arr = any(f.startswith('array') for f in forms)
@@ -242,8 +265,9 @@ def _judge_ff(case, acc, p, drv, ref, st):
         if exc is not None:
             forms = sorted(set(_form(c['d']) for c in ref.cons))
             arr = any(f.startswith('array') for f in forms)
-            acc.viol('find_feasible:success-although-violation-callback-raised:%s:%s' % (
-                exc[0].__name__, 'array-bounds' if arr else '+'.join(forms)),
+            acc.viol('find_feasible:success-although-violation-callback-raised:%s' % (
+                'injected-model-failure' if exc[0] is _Injected else
+                '%s:%s' % (exc[0].__name__, 'array-bounds' if arr else '+'.join(forms))),
                 'success reported but the residual callback raised (%s) and returned zeros; harness-evaluated '
                 '1/2*sum(viol^2)=%.3g at z=%s' % (str(exc[1])[:100], cost, zz.tolist()), case, fp=fp)
             return
@@ -292,6 +316,8 @@ def run_shard(shard, acc):
             z = _inside(ref, x0 + 1.0 * rng.normal(size=n))
             for ds in (False, True):
                 judge({'spec': spec, 'z': np.round(z, 12).tolist(), 'mode': 'find_feasible', 'ds': ds}, acc)
+            judge({'spec': spec, 'z': np.round(z, 12).tolist(), 'mode': 'find_feasible', 'ds': bool(i % 4),
+                   'fault': 1 + (i // 4) % 3}, acc)
 
 
 def run_case(case, acc):
